@@ -191,7 +191,7 @@ impl Property for C11 {
             for k in clash {
                 tree.files.remove(&k);
             }
-            Some(super::c04::ArcOpts { order: if g.chance(1, 3) { 0 } else { g.next() | 1 }, dir_members: g.chance(2, 3), dot_prefix: g.chance(1, 4), gnu: g.chance(2, 3), deflate: g.chance(1, 2) })
+            Some(super::c04::ArcOpts { order: if g.chance(1, 3) { 0 } else { g.next() | 1 }, dir_members: g.chance(2, 3), dot_prefix: g.chance(1, 4), gnu: g.chance(2, 3), deflate: g.chance(1, 2), extra: if g.chance(1, 3) { 1 + g.below(3) as u8 } else { 0 } })
         } else {
             None
         };
@@ -251,7 +251,7 @@ impl Property for C11 {
 
 /// The same queries on caches over the four real sources built from one directory.
 fn real_sources(w: &Work, opts: &super::c04::ArcOpts) {
-    use super::c04::{build_embedded, build_tar, build_zip, scratch, write_dir, FsTree, RmOnDrop};
+    use super::c04::{build_embedded, build_tar, build_zip, scratch, write_dir_links, FsTree, RmOnDrop};
     use assets_manager::source::{FileSystem, Tar, Zip};
     let to_fs = |t: &Tree| {
         let mut x = FsTree::default();
@@ -284,7 +284,7 @@ fn real_sources(w: &Work, opts: &super::c04::ArcOpts) {
     let dir = scratch();
     let _rm = RmOnDrop(dir.clone());
     let root = dir.join("root");
-    write_dir(&full, &root);
+    write_dir_links(&full, &root, if opts.extra & 2 != 0 { opts.order | 1 } else { 0 });
     std::fs::write(dir.join("t.tar"), build_tar(&arch, opts)).unwrap();
     std::fs::write(dir.join("t.zip"), build_zip(&arch, opts)).unwrap();
     fn run_on<S: assets_manager::source::Source + Send + Sync + 'static>(name: &'static str, src: S, t: &Tree, w: &Work) {
